@@ -637,6 +637,9 @@ def origins(prog, f, local, scope=None, call_filter=None, max_frames=6, _seen=No
     for bb, c in consts:
         if isinstance(c, dict) and c.get("closure") and c["closure"] in prog.fns:
             origins(prog, prog.fns[c["closure"]], 0, scope, call_filter, max_frames - 1, seen, out, _follow_callers=False)
+        # ... and on what a workspace function handed along as a function item returns (`.and_then(decode_hex)`)
+        if isinstance(c, dict) and c.get("fn") and c["fn"] in prog.fns and (scope is None or c["fn"] in scope) and not prog.fns[c["fn"]].is_test_like():
+            origins(prog, prog.fns[c["fn"]], 0, scope, call_filter, max_frames - 1, seen, out, _follow_callers=False)
     # return-value summaries: a workspace callee's result depends on what its body returns
     for c in calls:
         if call_filter is not None and not call_filter(c):
@@ -725,6 +728,11 @@ def origins(prog, f, local, scope=None, call_filter=None, max_frames=6, _seen=No
                                                     origins(prog, cf, a2["p"][0], scope, call_filter, max_frames - 1, seen, out)
                     continue
                 for c in cf.live_calls():
+                    # handed to an adaptor as a function item (`.and_then(decode_hex)`): its argument is what the adaptor's receiver carries
+                    if any(isinstance(a.get("c"), dict) and a["c"].get("fn") == f.path for a in c.args):
+                        for a2 in c.args:
+                            if "p" in a2:
+                                origins(prog, cf, a2["p"][0], scope, call_filter, max_frames - 1, seen, out)
                     if any(t.path == f.path for t in prog.call_targets(c)):
                         if l - 1 < len(c.args):
                             a = c.args[l - 1]
